@@ -92,10 +92,37 @@ class World:
 
     # ---- psutil-side
 
+    def mkpopen(self, pid):
+        """A real psutil.Popen object around a fake subprocess.Popen whose
+        child is `pid`: as after Popen(...) of a child that somebody else
+        (a SIGCHLD reaper, os.waitpid elsewhere) may later reap, so that the
+        wrapped object's returncode stays None."""
+        import psutil
+
+        class FakeSubprocessPopen:
+            def __init__(self, pid):
+                self.pid = pid
+                self.returncode = None
+                self.stdin = self.stdout = self.stderr = None
+
+            def poll(self):
+                return self.returncode
+
+        inc = self.owner_inc(pid)
+        p = psutil.Popen.__new__(psutil.Popen)
+        p._Popen__subproc = FakeSubprocessPopen(pid)
+        p._init(pid, _ignore_nsp=True)
+        o = Obj(p, pid, inc, born_gone=inc is None)
+        o.popen = True
+        self.objs.append(o)
+        return o
+
     def mkproc(self, pid, via_popen=False):
         import psutil
 
         inc = self.owner_inc(pid)
+        if via_popen == "popen-class":
+            return self.mkpopen(pid)
         if via_popen:
             p = psutil.Process.__new__(psutil.Process)
             p._init(pid, _ignore_nsp=True)
@@ -135,7 +162,8 @@ def table_ops():
         st.tuples(st.just("reap"), i),
         st.tuples(st.just("recycle"), i, st.booleans()),
         st.tuples(st.just("recycle"), i, st.booleans()),
-        st.tuples(st.just("mkproc"), i, st.sampled_from([False, False, False, True])),
+        st.tuples(st.just("mkproc"), i, st.sampled_from([False, False, False, True, "popen-class",
+                                                         "popen-class"])),
         st.tuples(st.just("mkproc"), i, st.just(False)),
     ]
 
